@@ -30,6 +30,9 @@ structure Cfg where
   /-- `Muxer.process` packetises the sequence headers only once the video parameter sets are
       usable (`videoMetaReady`), and drops every frame before that. -/
   gateParamSets : Bool
+  /-- `FlvCache.PushTo` (media/cache/flvcache.go) stamps the replayed headers with the stream's
+      current time when no GOP is cached (`false`: with 0, the behaviour before 75c064c). -/
+  stampNow : Bool
   deriving Repr, DecidableEq
 
 /-! ## constants (`c08_source_facts` proves that the constants regenerated from the source equal these) -/
